@@ -48,7 +48,7 @@ class G2(Generic[T, B]):
 
 
 LEAVES = [int, str, bool, float, bytes, Decimal, None]
-LITERALS = [0, 1, False, True, "a", "b", 2, b"x", None]
+LITERALS = [0, 1, False, True, "a", "b", 2, b"x", None, "1", "True", "None"]   # "1" / 1: str() of the two is the same text (defect #53)
 
 # kind -> (arity, [spellings: callable(args) -> hint], bare spellings, implicit args)
 GENERICS = {
@@ -386,6 +386,9 @@ def _directed(ctx):
         # equivalent spellings of one generic model inside a union collapse to the model (thorough-tier finding, repo fix 7eabfec)
         (GT[Any], Union[GT[Any], GT]), (Union[bytes, GT[Any], GT[bool]], Union[bytes, GT, GT[bool], GT[Any]]), (Set[Union[GT[Any], int]], Set[Union[GT, GT[Any], int]]),
         (GB[int], Union[GB, GB[int]]), (List[GT[Any]], List[Union[GT, GT[Any]]]),
+        # members whose old sort keys collided or depended on the spelling (defect #53)
+        (Union[list[L["1"]], list[L[1]]], Union[List[L[1]], List[L["1"]]]), (Union[Dict[str, L[True]], Dict[str, L["True"]]], Union[dict[str, L["True"]], dict[str, L[True]]]),
+        (Union[typing.Callable[[List[int]], int], typing.Callable[[list[int]], str]], Union[typing.Callable[[list[int]], int], typing.Callable[[List[int]], str]]),
     ]
     for a, b in pairs_equal:
         check_equivalent(ctx, ("leaf", a), a, b, 0, predicates=bool(typing.get_args(a)) or a is None)
@@ -403,4 +406,47 @@ def _directed(ctx):
             ctx.violation("different-hints-collapse:literal-bool-int", f"load({d!r}, Union[Literal[0], Literal[False]]) -> {out!r}", {})
 
 
-DIRECTED = {"documented-equivalences": _directed}
+def _string_bounds_across_modules(ctx):
+    """'Bare generics receive ... the bound': a string bound is a name in the module that DEFINES the type variable, also when the
+    generic class that uses it lives in another module (which may not know the name, or bind it to something else)."""
+    import sys  # noqa: PLC0415
+    import types as _types  # noqa: PLC0415
+
+    def module(name, src, **extra):
+        mod = _types.ModuleType(name)
+        mod.__dict__.update(extra)
+        sys.modules[name] = mod
+        exec(compile(src, f"<{name}>", "exec", dont_inherit=True), mod.__dict__)  # noqa: S102
+        return mod
+    x = module("vlib_c15_x", "from dataclasses import dataclass\nfrom typing import TypeVar, List\n@dataclass\nclass Payload:\n    n: int\n"
+               "PayloadT = TypeVar('PayloadT', bound='Payload')\nListT = TypeVar('ListT', bound='List[Payload]')\nCT = TypeVar('CT', 'Payload', int)\n")
+    users = {
+        "name-unbound-in-user-module": "",
+        "name-bound-to-other-class": "@dataclass\nclass Payload:\n    other: str\n",
+    }
+    for label, extra_src in users.items():
+        y = module(f"vlib_c15_y_{label.replace('-', '_')}", "from dataclasses import dataclass\nfrom typing import Generic\n" + extra_src
+                   + "@dataclass\nclass Box(Generic[PayloadT]):\n    item: PayloadT\n@dataclass\nclass LBox(Generic[ListT]):\n    items: ListT\n"
+                   "@dataclass\nclass CBox(Generic[CT]):\n    item: CT\n", PayloadT=x.PayloadT, ListT=x.ListT, CT=x.CT)
+        for bare, full, good, bad in ((y.Box, y.Box[x.Payload], {"item": {"n": 1}}, {"item": {"other": "s"}}),
+                                      (y.LBox, y.LBox[typing.List[x.Payload]], {"items": [{"n": 1}]}, {"items": [{"other": "s"}]}),
+                                      (y.CBox, y.CBox[Union[x.Payload, int]], {"item": {"n": 1}}, {"item": {"other": "s"}})):
+            n1, n2 = attempt(normalize_type, bare), attempt(normalize_type, full)
+            ctx.evaluated(("string-bound", label, bare.__name__), nontrivial=True)
+            ctx.count("equivalent_pairs")
+            info = {"case": label, "bare": show(bare), "explicit": show(full)}
+            if n1.kind != "ok" or n2.kind != "ok":
+                ctx.violation(f"normalisation-fails:{type(n1.exc or n2.exc).__name__}:string-bound", f"{label}: bare {bare.__name__} -> {n1!r:.200}; explicit -> {n2!r:.200}", info)
+                continue
+            if n1.value != n2.value or hash(n1.value) != hash(n2.value):
+                ctx.violation("equivalent-hints-normalise-differently:string-bound", f"{label}: bare {bare.__name__} normalises to {n1.value!r:.200}, with its implicit parameter written out {n2.value!r:.200}", info)
+                continue
+            for hint in (bare, full):
+                r = Retort()
+                ok_, ko_ = attempt(r.load, good, hint), attempt(r.load, bad, hint)
+                if ok_.kind != "ok" or ko_.kind == "ok":
+                    ctx.violation("equivalent-hints-behave-differently:string-bound", f"{label}: {show(hint)}: conforming data -> {ok_!r:.150}, data for the other class -> {ko_!r:.150}", info)
+                    break
+
+
+DIRECTED = {"documented-equivalences": _directed, "string-bounds-across-modules": _string_bounds_across_modules}
